@@ -67,6 +67,15 @@ CHECKS["C14"] = dict(
     note="Bounds: <= 3-5 tokens, radius <= 2, excluded-token and min_occurrences pruning. Timed / multiset / n-gram co-occurrence and tree vectorizers share the code pattern but are not encoded (uncovered).",
     ref="4/C14")
 
+CHECKS["C17"] = dict(
+    text="Bounded symbolic model checking of the real information_weight / column_weights / column_kl_divergence_exact_prior and InformationWeightTransformer.fit / transform: for every sparsity pattern of a count matrix within the bound (one symbolic boolean per cell: explicit zeros, empty rows and columns included), symbolic non-negative real counts, a symbolic positive prior strength and every storage layout (CSC, CSR, COO with duplicates, unsorted indices, dense) each column weight equals KL(posterior || row-mass baseline) written from the statement, with log an uninterpreted function (equality up to congruence of its arguments); weights are finite, non-negative (Gibbs instances), permute with columns and ignore row order; the fitted transformer's weights are finite and non-negative and transform(X) is X[i, j] * weight[j] cell by cell (linear, no new non-zero), leaving the weights unchanged.",
+    note="Bounds: matrices up to 2 x 2, 3 x 1, 1 x 3 quick (3 x 3 thorough); log and pow are uninterpreted functions with the axioms listed in the evidence (log(1) = 0, Gibbs instances at the arguments the kernel used, pow(a, b) >= 0 for a >= 0); queries are QF_UFNRA, decided by z3 after Ackermannization (fresh constants + congruence constraints) where the incremental solver returns unknown. Path witnesses are evaluated with the true log and compared with the compiled package. Approximate prior and supervised targets are not covered.",
+    ref="4/C17")
+CHECKS["C20"] = dict(
+    text="Bounded symbolic model checking of the real HistogramVectorizer.fit / transform with find_bin_boundaries, expand_boundaries, add_outier_bins over a right-closed-interval model of pandas: for symbolic real training values, symbolic absolute_range bounds (or +-inf), both strategies and append_outlier_bins on/off, the fitted bins start and end at the absolute range, are non-reversed and share their edges (gap-free, non-overlapping, increasing); for symbolic real transform values anywhere (equal to training extremes, bin edges, range bounds, far outside) every cell equals the number of the row's values in its half-open bin, is a non-negative integer, and each row total equals the number of values in (range_lo, range_hi].",
+    note="Bounds: <= 3-5 training values in <= 2 sequences, n_components 2..4, 2 transform sequences of 1-3 values. The pandas model (Interval, IntervalIndex, interval_range, cut().value_counts()) is validated by replaying one witness per explored path on the real pandas. Known finding F21 (constant training data) is reported as KNOWN-FINDING. The KDE clause is not decided (compiled sklearn KernelDensity; listed as uncovered).",
+    ref="4/C20")
+
 NOT_YET = {}
 
 
